@@ -134,3 +134,97 @@ func TestFailedMultiRecordGroupSkipsAllItsSequenceNumbers(t *testing.T) {
 		t.Fatalf("acknowledged write k=new lost after reopen: value=%q err=%v", v, err)
 	}
 }
+
+// obligation leveldb.decodeBatchToMem$1:assert(C01,C04:replayed-record-i-gets-the-group-sequence-plus-i ...)
+// A batch that writes the same key more than once (Put then Delete) is still
+// sitting in the journal when the DB is closed. After reopen the journal is
+// replayed; every Get/Has must still agree with a plain map driven by the same
+// sequence of operations.
+func TestBatchWithTheSameKeyTwiceSurvivesReopen(t *testing.T) {
+	stor := storage.NewMemStorage()
+	o := &opt.Options{}
+
+	model := map[string]string{}
+
+	check := func(db *leveldb.DB, stage string) {
+		t.Helper()
+		for _, k := range []string{"a", "k", "m", "z", "never"} {
+			want, wantOK := model[k]
+			got, err := db.Get([]byte(k), nil)
+			switch {
+			case err == leveldb.ErrNotFound:
+				if wantOK {
+					t.Errorf("%s: Get(%q) = not found, want %q", stage, k, want)
+				}
+			case err != nil:
+				t.Fatalf("%s: Get(%q): %v", stage, k, err)
+			default:
+				if !wantOK {
+					t.Errorf("%s: Get(%q) = %q, want not found", stage, k, got)
+				} else if string(got) != want {
+					t.Errorf("%s: Get(%q) = %q, want %q", stage, k, got, want)
+				}
+			}
+			has, err := db.Has([]byte(k), nil)
+			if err != nil {
+				t.Fatalf("%s: Has(%q): %v", stage, k, err)
+			}
+			if has != wantOK {
+				t.Errorf("%s: Has(%q) = %v, want %v", stage, k, has, wantOK)
+			}
+		}
+	}
+
+	db, err := leveldb.Open(stor, o)
+	if err != nil {
+		t.Fatal(err)
+	}
+
+	// Some ordinary data around the interesting key.
+	for _, k := range []string{"a", "m", "z"} {
+		if err := db.Put([]byte(k), []byte("v-"+k), nil); err != nil {
+			t.Fatal(err)
+		}
+		model[k] = "v-" + k
+	}
+
+	// One batch touching "k" twice: the later record (the Delete) must win.
+	b := new(leveldb.Batch)
+	b.Put([]byte("k"), []byte("first"))
+	model["k"] = "first"
+	b.Put([]byte("m"), []byte("m2"))
+	model["m"] = "m2"
+	b.Delete([]byte("k"))
+	delete(model, "k")
+	if err := db.Write(b, nil); err != nil {
+		t.Fatal(err)
+	}
+	check(db, "before reopen")
+
+	// Close while the batch is only in the journal, then reopen (journal replay).
+	if err := db.Close(); err != nil {
+		t.Fatal(err)
+	}
+	db, err = leveldb.Open(stor, o)
+	if err != nil {
+		t.Fatal(err)
+	}
+	check(db, "after reopen")
+
+	// The wrong answer is persistent: it survives a full compaction and another reopen.
+	if err := db.CompactRange(util.Range{}); err != nil {
+		t.Fatal(err)
+	}
+	check(db, "after CompactRange")
+	if err := db.Close(); err != nil {
+		t.Fatal(err)
+	}
+	db, err = leveldb.Open(stor, o)
+	if err != nil {
+		t.Fatal(err)
+	}
+	check(db, "after second reopen")
+	if err := db.Close(); err != nil {
+		t.Fatal(err)
+	}
+}
